@@ -1,7 +1,7 @@
 /*@harness
-{"tier":"quick","mode":"bounded(at most 2 posts and 1 wake-up between two waits; keys and data symbolic)","tus":["lib/async/async_runtime_epoll.c"],"include_tu":true,"dfcc":false,
+{"tier":"quick","mode":"bounded(at most 2 posts and 1 wake-up between two waits; keys and data symbolic 32-bit)","tus":["lib/async/async_runtime_epoll.c"],"include_tu":true,"dfcc":false,
  "functions":["async_runtime_post_completion","async_runtime_wakeup","async_runtime_wait"],
- "flags":["--bounds-check","--pointer-check"],"unwind":5,"timeout":600,
+ "flags":["--bounds-check","--pointer-check"],"unwind":6,"timeout":600,
  "expect":["h_eventfd_notify.assertion","async_runtime_wait.pointer_dereference"],
  "native":{"rename":["write","read","epoll_wait"]},
  "assumptions":["trusted kernel model of eventfd(2): write adds the 8-byte value to a 64-bit counter, read returns the counter and zeroes it, EAGAIN at 0; epoll_wait reports the eventfd readable iff the counter is non-zero",
@@ -15,6 +15,11 @@
 #include <errno.h>
 static uint64_t G_counter;          /* the kernel's eventfd counter */
 static int G_efd = 7, G_epfd = 5;
+static int G_locked;
+bool platform_mutex_init(platform_mutex_t *m) { return 1; }
+void platform_mutex_destroy(platform_mutex_t *m) { }
+void platform_mutex_lock(platform_mutex_t *m) { V_ASSERT(!G_locked, "the pending-completion lock is not taken twice"); G_locked = 1; }
+void platform_mutex_unlock(platform_mutex_t *m) { V_ASSERT(G_locked, "the pending-completion lock is released only while held"); G_locked = 0; }
 static int G_errno_v; int *__errno_location(void) { return &G_errno_v; }
 ssize_t write(int fd, const void *buf, size_t n) {
   V_ASSERT(fd == G_efd && n == 8, "completions are written to the eventfd as one 8-byte value");
@@ -39,15 +44,14 @@ void h_eventfd_notify(void) {
   V_DECL(uint32_t, k1); V_DECL(uint32_t, d1); V_DECL(uint32_t, k2); V_DECL(uint32_t, d2);
   V_DECL(int, nposts); V_DECL(int, wake_first);
   V_ASSUME(nposts >= 0 && nposts <= 2 && k1 != 0 && k2 != 0);
-  V_ASSUME(d1 < 0x80000000u && d2 < 0x80000000u);   /* the carrier encodes data as a 31-bit count; keys are 32-bit (stated limit of the interface) */
-#ifdef V_KF_EXCLUDE_C19_1
-  V_ASSUME(nposts + (wake_first ? 1 : 0) <= 1);     /* known finding C19-1: at most one notification between two waits */
-#endif
   if (wake_first) V_ASSERT(async_runtime_wakeup(&rt) == 0, "wake-up accepted");
   if (nposts >= 1) V_ASSERT(async_runtime_post_completion(&rt, k1, d1) == 0, "first completion accepted");
   if (nposts >= 2) V_ASSERT(async_runtime_post_completion(&rt, k2, d2) == 0, "second completion accepted");
   struct timeval tv = {0, 0};
-  int n = async_runtime_wait(&rt, out, 8, &tv);
+  V_DECL(int, maxev); V_ASSUME(maxev == 1 || maxev == 8);     /* a caller with room for a single event must get the rest from its next wait */
+  int n = async_runtime_wait(&rt, out, maxev, &tv);
+  V_ASSERT(n >= 0 && n <= maxev, "wait never reports more events than the caller has room for");
+  if (n < 8 && maxev == 1) { int n2 = async_runtime_wait(&rt, out + n, 8 - n, &tv); V_ASSERT(n2 >= 0, "second wait succeeds"); n += n2; }
   /* delivered completions = events with a non-zero key */
   int delivered = 0, seen1 = 0, seen2 = 0;
   for (int i = 0; i < n && i < 8; i++) if (out[i].completion_key != 0) {
@@ -55,11 +59,10 @@ void h_eventfd_notify(void) {
     if (out[i].completion_key == k1 && out[i].bytes_transferred == d1 && !seen1) seen1 = 1;
     else if (nposts >= 2 && out[i].completion_key == k2 && out[i].bytes_transferred == d2 && !seen2) seen2 = 1;
   }
+  V_ASSERT(!G_locked, "wait returns with the lock released");
   V_ASSERT(delivered == nposts, "every posted completion is delivered exactly once (none lost, none merged, none invented)");
   V_ASSERT(nposts < 1 || seen1, "the first completion arrives with the key and data it was posted with");
   V_ASSERT(nposts < 2 || seen2, "the second completion arrives with the key and data it was posted with");
-#ifndef V_KF_EXCLUDE_C19_1
-  V_COVER(nposts == 2 && n == 1);
-#endif
+  V_COVER(nposts == 2 && n == 2);
   V_COVER(nposts == 1 && !wake_first && n == 1); V_COVER(nposts == 0 && wake_first);
 }
